@@ -22,6 +22,27 @@ use ide::file_system::{FileId, FileSystem};
 use crate::vfs::{UrlExt, Vfs};
 use crate::{from_proto, to_proto};
 
+/// Verification hook H2 (compiled only with `--cfg tablegen_lsp_verif`): a process-global
+/// callback invoked at the synchronisation points of the main loop and of the snapshot tasks.
+#[cfg(tablegen_lsp_verif)]
+pub mod verif {
+    use std::sync::OnceLock;
+
+    type Callback = Box<dyn Fn(&'static str) + Send + Sync>;
+    static CALLBACK: OnceLock<Callback> = OnceLock::new();
+
+    /// Installs the callback (first call wins).
+    pub fn set_callback(callback: Callback) -> bool {
+        CALLBACK.set(callback).is_ok()
+    }
+
+    pub fn verif_sync(point: &'static str) {
+        if let Some(callback) = CALLBACK.get() {
+            callback(point);
+        }
+    }
+}
+
 pub struct Server {
     host: AnalysisHost,
     vfs: Arc<RwLock<Vfs>>,
@@ -126,7 +147,11 @@ impl LanguageServer for Server {
                 return Ok(None);
             };
 
+            #[cfg(tablegen_lsp_verif)]
+            verif::verif_sync("task.vfs_read.definition");
             let vfs = snap.vfs.read().unwrap();
+            #[cfg(tablegen_lsp_verif)]
+            verif::verif_sync("task.vfs_acquired");
             let line_index = snap.analysis.line_index(location.file);
             let lsp_location = to_proto::location(&vfs, &line_index, location);
             Ok(Some(GotoDefinitionResponse::Scalar(lsp_location)))
@@ -144,7 +169,11 @@ impl LanguageServer for Server {
             let Some(location_list) = snap.analysis.references(pos) else {
                 return Ok(None);
             };
+            #[cfg(tablegen_lsp_verif)]
+            verif::verif_sync("task.vfs_read.references");
             let vfs = snap.vfs.read().unwrap();
+            #[cfg(tablegen_lsp_verif)]
+            verif::verif_sync("task.vfs_acquired");
             let lsp_location_list = location_list
                 .into_iter()
                 .map(|it| to_proto::location(&vfs, &snap.analysis.line_index(it.file), it))
@@ -227,7 +256,11 @@ impl LanguageServer for Server {
                 return Ok(None);
             };
 
+            #[cfg(tablegen_lsp_verif)]
+            verif::verif_sync("task.vfs_read.document_link");
             let vfs = snap.vfs.read().unwrap();
+            #[cfg(tablegen_lsp_verif)]
+            verif::verif_sync("task.vfs_acquired");
             let lsp_links = links
                 .into_iter()
                 .map(|it| to_proto::document_link(&vfs, &line_index, it))
@@ -276,16 +309,36 @@ impl Server {
     fn set_file_content(&mut self, uri: &Url, text: &str) {
         let path = UrlExt::to_file_path(uri);
         // running tasks hold a snapshot and read the vfs: let them finish before locking it
+        #[cfg(tablegen_lsp_verif)]
+        verif::verif_sync("main.barrier.before");
         self.host.wait_for_snapshots();
+        #[cfg(tablegen_lsp_verif)]
+        verif::verif_sync("main.barrier.after");
+        #[cfg(tablegen_lsp_verif)]
+        verif::verif_sync("main.vfs_write.before");
         let mut vfs = self.vfs.write().unwrap();
+        #[cfg(tablegen_lsp_verif)]
+        verif::verif_sync("main.vfs_write.acquired");
         vfs.set_open_document(path.clone(), text.to_string());
         let file_id = vfs.assign_or_get_file_id(path);
         let text = Arc::from(text);
+        #[cfg(tablegen_lsp_verif)]
+        verif::verif_sync("main.host_set_file_content.before");
         self.host.set_file_content(file_id, text);
+        #[cfg(tablegen_lsp_verif)]
+        verif::verif_sync("main.host_set_file_content.after");
         self.host.set_root_file(&mut *vfs, file_id);
+        #[cfg(tablegen_lsp_verif)]
+        verif::verif_sync("main.host_set_root_file.after");
+        #[cfg(tablegen_lsp_verif)]
+        drop(vfs);
+        #[cfg(tablegen_lsp_verif)]
+        verif::verif_sync("main.vfs_write.released");
     }
 
     fn update_diagnostics(&mut self) {
+        #[cfg(tablegen_lsp_verif)]
+        verif::verif_sync("main.update_diagnostics");
         let diag_version = self.bump_diagnostic_version();
         let mut client = self.client.clone();
         let published_files = Arc::clone(&self.published_files);
@@ -294,6 +347,8 @@ impl Server {
 
             // clear the diagnostics of files that are no longer part of the workspace
             let current_files: HashSet<FileId> = diagnostic_map.keys().copied().collect();
+            #[cfg(tablegen_lsp_verif)]
+            verif::verif_sync("task.published_files.lock");
             let mut published_files = published_files.lock().unwrap();
             for file_id in published_files.difference(&current_files) {
                 diagnostic_map.entry(*file_id).or_default();
@@ -308,7 +363,11 @@ impl Server {
                     .map(|diag| to_proto::diagnostic(&line_index, diag))
                     .collect();
 
+                #[cfg(tablegen_lsp_verif)]
+                verif::verif_sync("task.vfs_read.diagnostics");
                 let vfs = snap.vfs.read().unwrap();
+                #[cfg(tablegen_lsp_verif)]
+                verif::verif_sync("task.vfs_acquired");
                 let file_path = vfs.path_for_file(&file_id);
                 let file_uri = UrlExt::from_file_path(file_path);
 
@@ -334,6 +393,16 @@ impl Server {
         let snap = ServerSnapshot {
             analysis: self.host.analysis(),
             vfs: Arc::clone(&self.vfs),
+        };
+        #[cfg(tablegen_lsp_verif)]
+        verif::verif_sync("main.spawn");
+        #[cfg(tablegen_lsp_verif)]
+        let f = move |snap: ServerSnapshot, params: P| {
+            verif::verif_sync("task.start");
+            let result = f(snap, params);
+            // the snapshot moved into the task body has been dropped here
+            verif::verif_sync("task.end");
+            result
         };
         task::spawn_blocking(move || f(snap, params))
     }
